@@ -12,7 +12,7 @@ import (
 func init() { register("C13", true, runC13) }
 
 func runC13(c *Check) {
-	c.Explanation = "The modular address arithmetic of C13 is out of static reach; decided are the structural conditions around it, for every layout: every error returned by the base computation chain (GetBase, HeaderForFileOffset, findProgramHeader, computeBase, elf.Open) is examined and the accompanying value is unused when it is non-nil (R1); the relocation base is only read after baseOnce.Do and only on the path where baseErr is nil (R2); both symbolizer pipes are sent addr - base with the base handed to their constructor from file.base, and the nm table adds that same base to every symbol address (R3); computeBase rejects addresses outside [start, limit) before looking for a segment (R4); the nm lookup returns early for an empty table or an address outside the table, and for data symbols compares against start+size (R5); HeaderForFileOffset cannot return success without a matching header (R6); the segment search receives the mapping's offset, its size limit-start and the sample's file offset addr-start+offset, the base formula receives start, limit and offset in that order, and ObjAddr returns addr-base, each compared as a linear form so that a dropped, swapped or wrong uint64 operand is reported (R7). Also: the tools are started only after the base is known (R2), a successfully computed base is always stored (R8). Not decided: that the computed base and the chosen segment are the right ones, the binary search's arithmetic."
+	c.Explanation = "The modular address arithmetic of C13 is out of static reach; decided are the structural conditions around it, for every layout: every error returned by the base computation chain (GetBase, HeaderForFileOffset, findProgramHeader, computeBase, elf.Open) is examined and the accompanying value is unused when it is non-nil (R1); the relocation base is only read after baseOnce.Do and only on the path where baseErr is nil (R2); both symbolizer pipes are sent addr - base with the base handed to their constructor from file.base, and the nm table adds that same base to every symbol address (R3); computeBase rejects addresses outside [start, limit) before looking for a segment (R4); the nm lookup returns early for an empty table or an address outside the table, and for data symbols compares against start+size (R5); HeaderForFileOffset cannot return success without a matching header (R6); the segment search receives the mapping's offset, its size limit-start and the sample's file offset addr-start+offset, the base formula receives start, limit and offset in that order, and ObjAddr returns addr-base, each compared as a linear form so that a dropped, swapped or wrong uint64 operand is reported (R7). Also: the tools are started only after the base is known (R2), a successfully computed base is always stored (R8). Round-I additions: query and answer of addr2line/llvm-symbolizer happen in one critical section (shared with C20-R1); the user/kernel split of GetBase is 1<<63. Not decided: that the computed base and the chosen segment are the right ones, the binary search's arithmetic."
 	c.errorDiscipline()
 	c.baseReads()
 	c.baseStoredWhenComputed()
@@ -1536,6 +1536,7 @@ func sameErrValueD(v ssa.Value, errv ssa.Value, depth int) bool {
 	}
 	return false
 }
+
 // isBaseErrValue: v is file.baseErr, read directly or handed back (as the only or the last
 // result) by a helper that runs the once and returns it.
 func isBaseErrValue(v ssa.Value) bool {
